@@ -918,7 +918,7 @@ fn main() {
         "CRAI byte geometry (container offset, landmark, slice length) is judged by py/cram_walk.py in the post hook; the order of the entries of one multi-reference slice is not judged",
         "only the layout the production writer emits (one slice per container) is generated",
         "all queries of a file and access path run on ONE reader in shuffled order (consecutive queries hop between references), 4 in 10 are consumed only partially and then dropped, and sequential records() scans (after seeking back to the first data container) and query_unmapped calls are interleaved; a wrong answer that a fresh reader gets right is reported as query:reused-reader-differs-from-fresh-reader:after-<previous call>",
-        "query_unmapped is only required to return every unplaced record once, in file order, and nothing that is not flagged unmapped (the statement does not name it; it is driven for the state it leaves behind)",
+        "query_unmapped is not judged against the written stream (the statement names region queries only): it is driven for the state it leaves behind in the reader, its outcome must not depend on the reader's history, and how its answer relates to the unplaced records is counted as observed_query_unmapped[...]",
     ] {
         rep.assumptions.push(a.into());
     }
